@@ -176,4 +176,22 @@ theorem eval_total (e : Expr) (types : List Ty) (r : RExpr) (hr : resolve e type
   subst he
   simpa [eval] using evalRows_total rows (by simpa [rwf] using hw) input hi
 
+/-- Variadic mode (`In` with tuple items): once `Resolve(types, true)` succeeded, evaluating any packed argument list of valid
+    values gives an answer (no error, no panic), and the answer is that of the non-variadic `Eval` on the expanded list — `Eval`
+    reads the caller's list and never writes it (expr.go:99-109), which the probe checks by re-evaluating the same list. -/
+theorem eval_total_variadic (items : Items) (fixed : List Ty) (elemT : Ty) (r : RExpr)
+    (hr : resolveInV items fixed elemT = .ok r) (fixedArgs elems : List (Option Val))
+    (hf : allSome fixedArgs) (he : allSome elems) :
+    ∃ b, evalInV r fixedArgs elems = .ok b := by
+  simp only [resolveInV] at hr
+  obtain ⟨rows, hrows, h2⟩ := bind_ok _ _ _ hr
+  injection h2 with h2; subst h2
+  have hw := resolveTuplesV_wf items fixed elemT rows hrows
+  have hi : allSome (fixedArgs ++ elems) := by
+    intro a ha
+    rcases List.mem_append.mp ha with h | h
+    · exact hf a h
+    · exact he a h
+  simpa [evalInV, eval] using evalRows_total rows hw _ hi
+
 end C18
